@@ -15,6 +15,8 @@ Extracted (exit != 0 if an anchored item is not found or has an unexpected shape
   * `cweWarningFields` — field names of `struct CweWarning` in declaration order (utils/log.rs) and the
                         fact that it derives `PartialOrd, Ord` (the sort in main.rs is the derived order)
   * `sortCall`        — main.rs calls `all_cwes.sort()` before printing
+  * `lkmMarkerSections` — the two section names whose CONJUNCTION defines `is_lkm` in `from_elf_sections`
+                        (intermediate_representation/runtime_memory_image.rs; any other shape is an error)
 The file is only rewritten when its content changes (keeps lake's cache warm).
 """
 import sys, os, re
@@ -171,6 +173,23 @@ def main():
     if re.search(r"impl\s+(?:PartialOrd|Ord)\s+for\s+CweWarning", log):
         die("CweWarning has a hand-written ordering")
 
+    # classification "Linux kernel module": relocatable object with BOTH marker sections
+    rmi = strip_comments(strip_tests(read(os.path.join(lib_src, "intermediate_representation", "runtime_memory_image.rs"))))
+    if not re.search(r"elf::header::ET_REL\s*=>\s*Self::from_elf_sections\(binary, elf_file\)", rmi):
+        die("runtime_memory_image.rs: `ET_REL => Self::from_elf_sections(..)` not found")
+    lk = re.findall(r"is_lkm\s*:\s*([^,\n][^}]*?),\s*\n", rmi)
+    lk_nonfalse = [x.strip() for x in lk if x.strip() not in ("false", "bool")]
+    if len(lk_nonfalse) != 1:
+        die("runtime_memory_image.rs: expected exactly one `is_lkm: <expr>` that is not `false`, found %r" % lk_nonfalse)
+    conj = re.fullmatch(r'get_section\("([^"]+)", &elf_file\)\.is_some\(\)\s*&&\s*get_section\("([^"]+)", &elf_file\)\.is_some\(\)',
+                        re.sub(r"\s+", " ", lk_nonfalse[0]))
+    if not conj:
+        die("runtime_memory_image.rs: `is_lkm` is no longer the conjunction `get_section(A).is_some() && get_section(B).is_some()`: %r" % lk_nonfalse[0])
+    lkm_markers = [conj.group(1), conj.group(2)]
+    fes = re.search(r"fn from_elf_sections\(.*?\n    \}\n", rmi, re.S)
+    if not fes or lk_nonfalse[0] not in fes.group(0):
+        die("runtime_memory_image.rs: the `is_lkm` conjunction is not inside from_elf_sections")
+
     o = []
     o.append("/- GENERATED by extract/modules.py from lib.rs, checkers.rs, caller/src/main.rs, utils/log.rs and the")
     o.append("   CWE_MODULE statics — do not edit. -/")
@@ -196,6 +215,10 @@ def main():
     o.append("/-- fields of `struct CweWarning` in declaration order (its `Ord` is derived: lexicographic in this order) -/")
     o.append("def cweWarningFields : List (String × String) :=")
     o.append("  " + lean_list(["(%s, %s)" % (lean_str(n), lean_str(t.replace("<", " ").replace(">", "").strip())) for n, t in fields]))
+    o.append("")
+    o.append("/-- `from_elf_sections` (the ET_REL branch of `RuntimeMemoryImage::new`) sets `is_lkm` to the CONJUNCTION")
+    o.append("    `get_section(a).is_some() && get_section(b).is_some()` of these section names; every other constructor sets `false` -/")
+    o.append("def lkmMarkerSections : List String := " + lean_list([lean_str(x) for x in lkm_markers]))
     o.append("")
     o.append("/-- main.rs sorts the warnings (`all_cwes.sort()`) before printing -/")
     o.append("def sortCall : Bool := " + ("true" if sort_call else "false"))
